@@ -164,3 +164,7 @@ TRUSTED = ['pyvc symbolic executor; numpy externals: empty/empty_like, slice sto
 ASSUMPTIONS = ['UniqueInverse: sorter is a permutation (it is numpy.argsort output)'] + _compress.ASSUMPTIONS
 NOT_COVERED = ['the structural recursion _assparse of the node classes and "scattering the listed values reproduces the dense array" (needs array semantics)',
                'ravel/unravel loops of Array.assparse (IR-level; DESIGN 4.5), evaluable.as_csr composition']
+
+
+from contracts import C05b as _C05b; _base_contracts = contracts  # extension (assparse merge, _assparse rules, CSR composition): contracts/C05b.py
+contracts = lambda: _base_contracts() + _C05b.contracts(); TRUSTED, ASSUMPTIONS, NOT_COVERED = TRUSTED + _C05b.TRUSTED, ASSUMPTIONS + _C05b.ASSUMPTIONS, _C05b.NOT_COVERED
